@@ -18,7 +18,10 @@ here raises TranslateError = the tie is broken, never a guess):
 import ast
 import hashlib
 import re
+import sys
 from pathlib import Path
+
+sys.path.insert(0, str(Path(__file__).resolve().parent))
 
 
 class TranslateError(Exception):
@@ -446,6 +449,69 @@ def tr_split_blocks(repo, consumed):
     return merge_g, merge_i, merge_n
 
 
+def tr_first_write(repo, consumed):
+    """Is the first write to <name>.msh / <name>.cnt of a FEMData.write('fistr') call a
+    truncating open (mode 'w' = Create) on every path?  Uses the effect program that
+    translate/c07_effects.py extracts (Create vs Append, Guard, If, Loop, Call)."""
+    import c07_effects
+    try:
+        cfg, cons = c07_effects.translate(str(repo))
+    except c07_effects.TranslateError as e:
+        raise TranslateError('c07_effects: ' + str(e))
+    for k, v in cons.items():
+        if 'fistr' in k.lower() or 'write' in k.lower():
+            consumed['effects:' + k] = v
+    prog = dict(cfg).get('fistr')
+    if prog is None:
+        raise TranslateError('no effect program for format fistr')
+
+    def first_kinds(suffix):
+        kinds = set()
+
+        def is_target(pe):
+            return pe[0] == 'PSuffix' and pe[1] == suffix and pe[2] == ('PName',)
+
+        def go(q, st):
+            k = q[0]
+            if k == 'Skip':
+                return {('N', st)}
+            if k == 'Return':
+                return {('R', st)}
+            if k == 'Raise':
+                return {('X', st)}
+            if k == 'Guard':
+                return {('N', st), ('X', st)}
+            if k in ('Create', 'Append'):
+                if is_target(q[1]):
+                    if st == 'none':
+                        kinds.add(k)
+                    return {('N', 'done')}
+                return {('N', st)}
+            if k == 'Seq':
+                out = set()
+                for o, s1 in go(q[1], st):
+                    out |= go(q[2], s1) if o == 'N' else {(o, s1)}
+                return out
+            if k == 'If':
+                return go(q[1], st) | go(q[2], st)
+            if k == 'Call':
+                return {('N' if o == 'R' else o, s1) for o, s1 in go(q[1], st)}
+            if k == 'Loop':
+                seen, frontier, out = {st}, [st], {('N', st)}
+                while frontier:
+                    s0 = frontier.pop()
+                    for o, s1 in go(q[1], s0):
+                        out.add((o, s1))
+                        if o == 'N' and s1 not in seen:
+                            seen.add(s1)
+                            frontier.append(s1)
+                return out
+            raise TranslateError(f'effect program: unknown node {k}')
+        go(prog, 'none')
+        return kinds
+    return first_kinds('.msh') == {'Create'}, first_kinds('.cnt') == {'Create'}
+
+
 def tr_read_array(repo, consumed):
     txt, tree = _src(repo, 'femio/util/string_parser.py')
     cls = _find_class(tree, 'StringSeries')
@@ -472,6 +538,7 @@ def translate(repo):
     rebind_by_id = tr_remove_useless(repo, consumed)
     gen_empty_ok = tr_generate_constraints(repo, consumed)
     merge_g, merge_i, merge_n = tr_split_blocks(repo, consumed)
+    msh_trunc, cnt_trunc = tr_first_write(repo, consumed)
     if elem_fmt != '%d':
         raise TranslateError(f'element rows are written with {elem_fmt!r}, not %d')
     return {
@@ -482,6 +549,7 @@ def translate(repo):
         'element_types': types, 'ignore_pats': ignore, 'ignore_src': ignore_src,
         'rebind_by_id': rebind_by_id, 'gen_empty_ok': gen_empty_ok,
         'merge_egroups': merge_g, 'merge_initial': merge_i, 'merge_ngroups': merge_n,
+        'msh_truncated': msh_trunc, 'cnt_truncated': cnt_trunc,
     }, consumed
 
 
@@ -533,6 +601,10 @@ def emit(t):
         f'Definition merge_egroups : bool := {"true" if t["merge_egroups"] else "false"}.',
         f'Definition merge_initial : bool := {"true" if t["merge_initial"] else "false"}.',
         f'Definition merge_ngroups : bool := {"true" if t["merge_ngroups"] else "false"}.',
+        '(* effect program of FEMData.write(\'fistr\') (translate/c07_effects.py): on every path the',
+        '   first write to <name>.msh / <name>.cnt opens the file with mode w (truncates) *)',
+        f'Definition msh_truncated : bool := {"true" if t["msh_truncated"] else "false"}.',
+        f'Definition cnt_truncated : bool := {"true" if t["cnt_truncated"] else "false"}.',
         '',
     ]
     return '\n'.join(lines)
